@@ -12,7 +12,8 @@
              not Ok with the frame's number of objects under them)
    6 ALLOC : frames damaged_frame (procs MiB)*   heap handed out while scanning a zip-bomb blob
              (see check_alloc)
-   7 SESSION: frames k calls* (code tok)*   a call script on a cut valid file (see check_session)
+   7 SESSION: mode frames k calls* (code tok)*   a call script (Scan, Err, Header, Close) on a cut valid
+             file or on a damaged file (see check_session)
    outcome: 0 Err()=nil, 1 Err()<>nil, 2 process crashed, 3 hang.
    codes: 1 = model <> implementation, 2 = property oracle fails on the observation,
           3 = the runs do not partition 0..size, 0 = case does not parse. *)
@@ -171,19 +172,25 @@ Definition check_alloc : P (list Z) :=
     end in
   ret (code_if j2 2).
 
-(* 7 SESSION: frames k calls* (code tok)*  -- one scanner on the first k bytes of a VALID file driven by
-   a call script (0 Scan, 1 Err, 2 Header); responses: 0 Scan false, 1 Scan true + object, 2/3
-   Err nil/non-nil, 4/5 Header error nil/non-nil.  Judgement 1: the scanner.go model of
-   C06/Session.v over [scan] answers every call alike.  Judgement 2 (on the observation alone):
-   the objects returned are those of the blocks wholly before k; after the first Scan = false no
-   Scan returns true, every Err answers alike and Header reports an error; and that Err is non-nil
-   iff k is not a block boundary. *)
-Definition call_of (z : Z) : call := if z =? 0 then KScan else if z =? 1 then KErr else KHeader.
+(* 7 SESSION: mode frames k calls* (code tok)*  -- one scanner driven by a call script (0 Scan, 1 Err,
+   2 Header, 3 Close); responses: 0 Scan false, 1 Scan true + object, 2/3 Err nil/non-nil, 4/5
+   Header error nil/non-nil, 6 Close returned.  mode 0: the first k bytes of a VALID file; mode 1:
+   a whole damaged file, k = index of the damaged frame.
+   Judgement 1: the scanner.go model of C06/Session.v over [scan] answers every call alike (a
+   Close that does not return is a missing response list).
+   Judgement 2 (on the observation alone), on the part of the script before its first Close: the
+   objects returned are a prefix of those of the intact blocks (all of them if a Scan returned
+   false), after the first Scan = false no Scan returns true, every Err answers alike and Header
+   reports an error, and that Err is non-nil iff the input is cut off a block boundary / damaged;
+   after the first Close: no object, and an Err that was non-nil stays non-nil. *)
+Definition call_of (z : Z) : call :=
+  if z =? 0 then KScan else if z =? 1 then KErr else if z =? 2 then KHeader else KClose.
 Definition resp_code (x : resp obj) : Z * obj :=
   match x with
   | RScanFalse => (0, 0) | RObj o => (1, o)
   | RErr false => (2, 0) | RErr true => (3, 0)
   | RHeader false => (4, 0) | RHeader true => (5, 0)
+  | RClosed => (6, 0)
   end.
 Definition pair_eqb (a b : Z * obj) : bool := (fst a =? fst b) && (snd a =? snd b).
 
@@ -206,16 +213,38 @@ Definition returned (l : list (Z * obj)) : list obj :=
   flat_map (fun x => if fst x =? 1 then [snd x] else []) l.
 Definition last_err (l : list (Z * obj)) : Z :=
   fold_left (fun a x => if (fst x =? 2) || (fst x =? 3) then fst x else a) l (-1).
+(* the responses after the first Scan = false *)
+Fixpoint after_end (l : list (Z * obj)) : list (Z * obj) :=
+  match l with [] => [] | x :: r => if fst x =? 0 then r else after_end r end.
+(* the responses before / from the first Close *)
+Fixpoint split_close (l : list (Z * obj)) : list (Z * obj) * list (Z * obj) :=
+  match l with
+  | [] => ([], [])
+  | x :: r => if fst x =? 6 then ([], l) else let '(a, b) := split_close r in (x :: a, b)
+  end.
+Fixpoint after_close (bad : bool) (l : list (Z * obj)) : bool :=
+  match l with
+  | [] => true
+  | (c, _) :: r => if c =? 1 then false else if bad && (c =? 2) then false else after_close (bad || (c =? 3)) r
+  end.
 
 Definition check_session : P (list Z) :=
-  fs <- pframes ;; k <- pint ;; calls <- plist pint ;;
+  mode <- pint ;; fs <- pframes ;; k <- pint ;; calls <- plist pint ;;
   resps <- plist (c <- pint ;; t <- ptok ;; ret (c, t)) ;;
-  let model := map resp_code (session fs k (map call_of calls)) in
+  let avail := if mode =? 0 then k else total_size fs in
+  let good := if mode =? 0 then frames_before fs k else firstn (Z.to_nat k) fs in
+  let model := map resp_code (session fs avail (map call_of calls)) in
   let j1 := list_eqb pair_eqb model resps in
-  let j2 := valid_file fs && (0 <=? k) && (k <=? total_size fs)
-            && objs_eqb (returned resps) (objs_before fs k)
-            && sticky false None resps
-            && (last_err resps =? (if is_boundary fs k then 2 else 3)) in
+  let '(pre, post) := split_close resps in
+  let ended := existsb (fun x => fst x =? 0) pre in
+  let expect_err := if mode =? 0 then (if is_boundary fs k then 2 else 3) else 3 in
+  let j2 := valid_file (if mode =? 0 then fs else good) && (0 <=? k) && (avail <=? total_size fs)
+            && (if ended then objs_eqb (returned pre) (objs_of good)
+                             && ((last_err (after_end pre) =? expect_err) || (last_err (after_end pre) =? -1))  (* -1: Err was not asked *)
+                else is_prefix (returned pre) (objs_of good))
+            && sticky false None pre
+            && after_close (last_err (after_end pre) =? 3) post
+            && negb (Nat.eqb (length resps) 0) in
   ret (code_if j1 1 ++ code_if j2 2)%list.
 
 (* 4 TRAILER: like DAMAGE, for BYTES FOLLOWING the end of the zlib stream inside zlib_data (the data
